@@ -730,9 +730,18 @@ func (fv *FuncVC) specCall(x *SCall, sc *SpecScope) Val {
 		// pkg.Func(args) ?
 		if id, ok := sel.X.(*SIdent); ok {
 			if _, bound := sc.bound[id.Name]; !bound && !(sc.own && fv.hasVar(sc.st, id.Name)) {
+				cands := []*types.Package{}
+				if ip := fv.importedAs(id.Name); ip != nil {
+					cands = append(cands, ip)
+				}
 				for _, p := range fv.w.All {
 					if p.Types != nil && p.Types.Name() == id.Name {
-						if fo, ok := p.Types.Scope().Lookup(sel.Sel).(*types.Func); ok {
+						cands = append(cands, p.Types)
+					}
+				}
+				for _, pt := range cands {
+					{
+						if fo, ok := pt.Scope().Lookup(sel.Sel).(*types.Func); ok {
 							var args []Val
 							for _, a := range x.Args {
 								args = append(args, fv.specEval(a, sc))
@@ -899,4 +908,19 @@ func (fv *FuncVC) applyPred(pd *PredDef, args []Val, sc *SpecScope) Val {
 		ts[i] = a.T
 	}
 	return Val{sx(name, ts...), rs, rt}
+}
+
+// importedAs resolves an import name (possibly an alias) used in the verified function's package.
+func (fv *FuncVC) importedAs(name string) *types.Package {
+	for _, o := range fv.info.Defs {
+		if pn, ok := o.(*types.PkgName); ok && pn.Name() == name {
+			return pn.Imported()
+		}
+	}
+	for _, o := range fv.info.Implicits {
+		if pn, ok := o.(*types.PkgName); ok && pn.Name() == name {
+			return pn.Imported()
+		}
+	}
+	return nil
 }
